@@ -67,7 +67,8 @@ class Check(BaseCheck):
     def run(self, spec, rec):
         env.load()
         from hotxlfp.formulas import utils
-        getattr(self, 'c_' + spec['campaign'])(spec, rec, utils)
+        from ..oracle import Guarded
+        getattr(self, 'c_' + spec['campaign'])(spec, rec, Guarded(utils, rec, 'C13'))
 
     # ---------------------------------------------------------------- function level
     def c_days(self, spec, rec, utils):
